@@ -121,6 +121,7 @@ pub fn run(thorough: bool) -> Vec<Part> {
             ("expect zero length then expect".into(), format!("{}{}", ex("1.1", "Expect", 0, ""), ex("1.1", "Expect", 4, "body"))),
             ("name padded with 12 spaces".into(), ex("1.1", "Expect            ", 2, "ok")),
             ("name padded left and right with tabs/spaces (24)".into(), ex("1.1", "\t    \t      Expect \t          ", 2, "ok")),
+            ("expect next to Transfer-Encoding: chunked, before and after it (the body is still framed by Content-Length)".into(), format!("PUT /e HTTP/1.1\r\nTransfer-Encoding: chunked\r\nExpect: 100-continue\r\nContent-Length: 2\r\n\r\nokPUT /f HTTP/1.0\r\nExpect: 100-continue\r\nContent-Length: 1\r\ntransfer-encoding: chunked\r\nAccept: text/plain\r\n\r\nz")),
             ("three expects".into(), format!("{}{}{}", ex("1.1", "Expect", 1, "a"), ex("1.1", "Expect", 1, "b"), ex("1.1", "Expect", 1, "c"))),
         ];
         for (name, st) in streams {
